@@ -29,11 +29,12 @@ type Scenario struct {
 	IDScheme    int          `json:"id_scheme,omitempty"`    // 0: t00,t01..; 1: every id is a prefix of the next; 2: ids with spaces, slashes, quotes, non-ASCII
 	UseTaskMap  bool         `json:"use_task_map,omitempty"` // primary Task objects come from TaskMap.Add/Get
 	UseColor    bool         `json:"use_color,omitempty"`
-	MaxParFirst int          `json:"max_par_first,omitempty"` // an earlier SetMaxParallel call with this value (the later one wins)
-	SerialLast  bool         `json:"serial_last,omitempty"`   // SetSerial is called after SetMaxParallel instead of before
-	Again       bool         `json:"run_again,omitempty"`     // single graph, no cancellation: call Run once more on the same graph after the last Run, whatever it returned
-	Family      string       `json:"family,omitempty"`        // graph shape family / sweep tag (informational)
-	Mode        string       `json:"mode,omitempty"`          // canonical | permuted | wild
+	OuterBuf    bool         `json:"outer_buffer_in_ctx,omitempty"` // the context given to Run already carries StdoutBuffer/StderrBuffer values (a nested, buffering graph)
+	MaxParFirst int          `json:"max_par_first,omitempty"`       // an earlier SetMaxParallel call with this value (the later one wins)
+	SerialLast  bool         `json:"serial_last,omitempty"`         // SetSerial is called after SetMaxParallel instead of before
+	Again       bool         `json:"run_again,omitempty"`           // single graph, no cancellation: call Run once more on the same graph after the last Run, whatever it returned
+	Family      string       `json:"family,omitempty"`              // graph shape family / sweep tag (informational)
+	Mode        string       `json:"mode,omitempty"`                // canonical | permuted | wild
 }
 
 // Phase2Spec: more construction calls and possibly a new limit, applied after the first Run
@@ -133,8 +134,7 @@ type CancelSpec struct {
 
 type WriterSpec struct {
 	Yield   bool `json:"yield,omitempty"`    // the output sink yields inside Write
-	ShortAt int  `json:"short_at,omitempty"` // k>0: the k-th Write accepts only half of its bytes
-	ErrAt   int  `json:"err_at,omitempty"`   // k>0: the k-th Write fails
+	ErrFrom int  `json:"err_from,omitempty"` // k>0: from the k-th Write on the sink rejects everything (closed pipe)
 }
 
 // ---- reference model of the declared graph ----
@@ -619,7 +619,7 @@ func Generate(seed uint64, o GenOpts) *Scenario {
 			sc.MaxPar = 1 + r.Intn(4)
 		}
 	}
-	sc.IDScheme = []int{0, 0, 0, 1, 2}[r.Intn(5)]
+	sc.IDScheme = []int{0, 0, 0, 1, 2, 3}[r.Intn(6)]
 	if huge {
 		sc.IDScheme = 0 // ids that are 200-character prefixes of each other only make sorting slow
 	}
@@ -645,6 +645,10 @@ func Generate(seed uint64, o GenOpts) *Scenario {
 	sc.Buffer = r.Intn(2) == 0
 	if sc.Buffer {
 		sc.Writer.Yield = r.Intn(4) != 0
+		if r.Intn(12) == 0 {
+			sc.Writer.ErrFrom = 1 + r.Intn(4)
+		}
+		sc.OuterBuf = r.Intn(8) == 0
 	}
 	if r.Intn(4) == 0 || (o.Prop == "C15" && r.Intn(10) < 3) {
 		sc.Graphs = 2
